@@ -37,6 +37,7 @@ def emit_param_str(
     """
     name, _param = param
     del param
+    _param = dict(_param)  # `set_default_doc` below must not leak into the IR shared with other emitters
 
     _fill = fill if word_wrap else identity
 
